@@ -536,6 +536,19 @@ def pool_check(chk, run, pool, wd):
             continue            # reported through its own observation
         ds.append(p["d"])
         addrs.append(a)
+    # the stack is not route aware (settings.route_aware is False): the same address spelled with a route ("...@router") denotes
+    # the same address -- it compares equal, hashes alike and finds the unrouted spelling in a dict
+    twins = 0
+    for d, a in list(zip(ds, addrs)):
+        if twins >= 40:
+            break
+        try:
+            ar = Address(str(a) + "@10.0.0.1")
+        except Exception:
+            continue
+        ds.append(d)
+        addrs.append(ar)
+        twins += 1
     n = len(ds)
     M = {k: [[False] * n for _ in range(n)] for k in ("eq", "ne", "hasheq", "indict", "inset")}
     for i, a in enumerate(addrs):
@@ -596,7 +609,7 @@ def main(tier, seed):
                 "all are non-trivial (each is a different notation, number or boundary)")
     chk.assumptions = [
         "descriptor -> text/bytes/tuple rendering and Address -> field projection (render/build/project in c18.py, ~80 lines) are trusted base",
-        "out of scope, not exercised: '@route' suffixes and addrRoute, settings.route_aware=True, interface names (pdu.netifaces is "
+        "out of scope, not exercised: settings.route_aware=True (routes only as ignored suffixes of 40 pool addresses), interface names (pdu.netifaces is "
         "forced to None), the aa:bb:cc:dd:ee:ff notation, the Null address Address(), octet strings of length 0 or above 7",
         "network 0 is accepted as an ordinary network number (the property refuses only numbers above 65534); 65535 is refused in "
         "'n:*' / 'n:s' (the global broadcast is written '*:*')",
